@@ -631,8 +631,11 @@ pub struct Lay {
     pub n_lwe: usize,
     pub p: i64, // Galois element of automorphism keys
     pub dist: usize,
-    /// configured sigma of the fresh noise (bound = 6 sigma)
+    /// configured sigma of the fresh noise
     pub sigma: f64,
+    /// truncation bound / sigma: 6 (the library's default ratio) for the pooled statistics; tighter admissible ratios
+    /// (bound >= sigma) only feed the deterministic "no coefficient beyond the bound" check
+    pub bf: f64,
 }
 
 impl Lay {
@@ -674,7 +677,7 @@ impl Lay {
             if rng.coin() { e } else { -e }
         };
         let sigma = *rng.pick(&[SIGMA, SIGMA, SIGMA, SIGMA, SIGMA, SIGMA, SIGMA, 8.0, 1.0, 25.0]);
-        let mut l = Lay { n, rank, rank_in, b, size, k, dnum, dsize, n_lwe, p, dist: rng.usize_in(0, SDIST_KINDS - 1), sigma };
+        let mut l = Lay { n, rank, rank_in, b, size, k, dnum, dsize, n_lwe, p, dist: rng.usize_in(0, SDIST_KINDS - 1), sigma, bf: 6.0 };
         match kind {
             Kind::Glwe | Kind::GlweZero | Kind::GlweC | Kind::Pk | Kind::Lwe => {
                 l.rank = rng.usize_in(0, 3);
@@ -722,13 +725,13 @@ impl Lay {
     }
     pub fn desc(&self, kind: Kind) -> J {
         jo! {"backend" => BE_NAME, "kind" => kind.name(), "n" => self.n, "rank" => self.rank, "rank_in" => self.rank_in, "base2k" => self.b, "size" => self.size,
-        "k" => self.k, "dnum" => self.dnum, "dsize" => self.dsize, "n_lwe" => self.n_lwe, "p" => self.p, "dist" => self.dist, "sigma" => self.sigma}
+        "k" => self.k, "dnum" => self.dnum, "dsize" => self.dsize, "n_lwe" => self.n_lwe, "p" => self.p, "dist" => self.dist, "sigma" => self.sigma, "bound_over_sigma" => self.bf}
     }
     pub fn key(&self, kind: Kind) -> String {
         format!("{BE_NAME}|{}|{}|{}|{}|{}|{}|{}|{}|{}|{}|{}|{}", kind.name(), self.n, self.rank, self.rank_in, self.b, self.k, self.dnum, self.dsize, self.n_lwe, self.p, self.dist, self.sigma)
     }
     pub fn noise(&self) -> NoiseP {
-        NoiseP { k: self.k, sigma: self.sigma, bound: 6.0 * self.sigma }
+        NoiseP { k: self.k, sigma: self.sigma, bound: self.bf * self.sigma }
     }
     pub fn gglwe_layout(&self, rank_in: usize) -> GGLWELayout {
         GGLWELayout {
